@@ -116,6 +116,16 @@ def instances(tier):
         if not quick:
             add(spec('curve', (p,), ((1,),), rational=False), [{0: 1}, {0: 1}, {0: 1}], timeout=1200)
     add(spec('curve', (2,), ((1,),), rational=True, lo=2, hi=5), [{0: 2}])
+    add(spec('curve', (2,), ((1, 1),), rational=False, lo=-1, hi=1), [{0: 1}])
+    add(spec('curve', (3,), ((1,),), rational=True, lo=-2, hi=3), [{0: 2}], via='method')
+    sp0 = spec('surface', (2, 1), ((1,), (1,)), rational=False, doms=[(-1, 1), (-2, 3)])
+    add(sp0, [{0: 1}])
+    add(sp0, [{1: 1}])
+    add(sp0, [{0: 1, 1: 1}], timeout=900)
+    add(sp0, [{1: 1}], via='method')
+    spv = spec('volume', (1, 1, 2), ((), (1,), ()), rational=False, doms=[(-1, 1), (-1, 2), (-3, 1)])
+    for d in range(3):
+        add(spv, [{d: 1}], timeout=1200)
     # surfaces
     surf = [((1, 2), ((1,), ())), ((2, 1), ((), (1,))), ((2, 2), ((1,), (2,)))]
     if not quick:
